@@ -103,9 +103,9 @@ struct E5 : Engine {
 			if(race){ p["poolrace"] = 2 + (int)r.below(3); p["len"] = (int)r.below(300); p["urandom_fail"] = J::arr(); return p; }   // a fresh session_pool used by several worker threads at once: first use of the encryptor factory included
 			J ops = J::arr(); int n = 3 + r.below(thorough ? 40 : 16);
 			for(int i=0;i<n;i++){ J o = J::obj(); unsigned x = r.below(100);
-				if(x < 30){ o["op"] = "save"; unsigned y = r.below(10); o["len"] = (int)(y < 5 ? r.below(64) : y < 9 ? r.below(2000) : r.below(thorough ? 65000 : 20000)); o["fill"] = (int)r.below(3); o["age"] = r.below(4) == 0 ? (int)(1 + r.below(50)) : -1; }
+				if(x < 30){ o["op"] = "save"; unsigned y = r.below(10); o["len"] = (int)(y < 5 ? r.below(64) : y < 9 ? r.below(2000) : r.below(thorough ? 65000 : 20000)); o["fill"] = (int)r.below(3); o["age"] = r.below(4) == 0 ? (int)(1 + r.below(50)) : -1; if(r.below(40) == 0) o["age"] = 2147483647; }
 				else if(x < 50){ o["op"] = "load"; }
-				else if(x < 62){ o["op"] = "tick"; unsigned y = r.below(10); o["s"] = y < 6 ? (int)r.below(20) : y < 9 ? (int)r.below(4000) : (int)r.below(100000000); }
+				else if(x < 62){ o["op"] = "tick"; unsigned y = r.below(10); o["s"] = y < 6 ? (int)r.below(20) : y < 9 ? (int)r.below(4000) : (int)r.below(100000000); if(y == 9 && r.below(3) == 0) o["s"] = (long long)(2147483000LL + (long long)r.below(2000000000u) * (long long)(1 + r.below(3))); }   /* also distances that do not fit into 32 bits (68 years and more) */
 				else { o["op"] = "attack"; static const char *kinds[] = {"flip","flip","truncate","extend","swap_blocks","splice","other_key","other_algo","prefix","random","replay_old","b64_noncanon","empty_cipher","tag_guess","tag_guess","tag_guess"}; o["kind"] = kinds[r.below(16)]; o["pos"] = (long long)r.below(1000000); o["n"] = (int)(1 + r.below(40)); o["a"] = (int)r.below(8); o["b"] = (int)r.below(8); }
 				ops.push(o); }
 			p["ops"] = ops; p["flip_base"] = (long long)(runner_idx >= 0 ? runner_idx : 0);
@@ -233,7 +233,7 @@ struct E5 : Engine {
 				// save-then-load is the identity
 				{ uint64_t uf1 = simk::stats().urandom_open_failed; session_interface s(pool,jar); bool threw = false; try { s.load(); } catch(std::exception const &){ if(simk::stats().urandom_open_failed == uf1) throw; threw = true; cnt["loads_refused_without_entropy"]++; }
 				  if(!threw && (!s.is_set("d") || s.get("d") != payload)) res.fail("save-load-mismatch",where + ": loading right after saving did not return the payload (" + std::to_string(payload.size()) + " bytes)"); } }
-			else if(op == "tick"){ simk::advance_us(std::max<int64_t>(0,std::min<int64_t>(o.geti("s"),200000000))*1000000); cnt["ticks"]++; }
+			else if(op == "tick"){ simk::advance_us(std::max<int64_t>(0,std::min<int64_t>(o.geti("s"),20000000000LL))*1000000); cnt["ticks"]++; if(o.geti("s") > 2147483647LL) cnt["ticks_beyond_32_bits"]++; }
 			else if(op == "load" || op == "attack"){
 				std::string presented;
 				if(op == "attack" && !issued.empty()){ cnt["attacks"]++;
@@ -393,7 +393,7 @@ struct E5 : Engine {
 		net_resetter.fired = &cnt["storage_connection_resets"]; if(net_server) simk::add_actor(&net_resetter);
 		struct ActorGuard { ~ActorGuard(){ simk::clear_actors(); } } actor_guard;   // the actor lives on this stack frame
 		int nb = (int)std::max<int64_t>(1,std::min<int64_t>(plan.geti("browsers",1),4));
-		std::vector<Jar> jars(nb); std::vector<MSession> ms(nb); std::set<std::string> all_sids; std::vector<std::string> dead_sids; std::vector<size_t> sid_entropy_at;
+		std::vector<Jar> jars(nb); std::vector<MSession> ms(nb); std::set<std::string> all_sids; std::vector<std::string> dead_sids; std::vector<std::pair<size_t,size_t>> sid_entropy_at;   /* (read-out, offset) of the entropy every identifier was made of */
 		int def_timeout = v.get<int>("session.timeout"); int def_how = mode_of(v.get<std::string>("session.expire")); size_t climit = (size_t)v.get<int>("session.client_size_limit");
 		auto now = []{ return simk::now_us()/1000000; };
 		const J &reqs = plan.get("reqs");
@@ -505,13 +505,12 @@ struct E5 : Engine {
 				if(srv){ n.sid = sc.substr(1); if(!SpyStorage::wellformed(n.sid)){ res.fail("malformed-session-id-issued",where + ": issued id " + wire::esc(sc)); break; }
 					if(is_new && !old_sid.empty() && n.sid == old_sid){ res.fail("session-id-not-renewed",where + ": a reset / new session kept the old identifier"); break; }
 					if(is_new && all_sids.count(n.sid)){ res.fail("session-id-reused",where + ": a fresh session got an identifier seen before"); break; }
-					// unpredictable = made of what the entropy source supplied: the 16 bytes of a fresh identifier are exactly what ONE open of /dev/urandom was served
-					// (however its reads were cut short or interrupted), and an open that no earlier identifier came from
-					if(is_new && !all_sids.count(n.sid)){ simk::TsanIgnore ign; std::string raw = unhex(n.sid); const std::vector<std::string> &opens = simk::entropy_by_open(); size_t at = std::string::npos;
-						for(size_t u=opens.size();u-->0;) if(opens[u] == raw){ at = u; break; }
-						if(at == std::string::npos){ res.fail("session-id-not-from-entropy-source",where + ": the fresh identifier " + n.sid + " is not the 16 bytes that any one read-out of /dev/urandom supplied (" + std::to_string(opens.size()) + " read-outs so far)"); break; }
-						if(std::find(sid_entropy_at.begin(),sid_entropy_at.end(),at) != sid_entropy_at.end()){ res.fail("session-id-not-from-entropy-source",where + ": the fresh identifier was made of entropy that an earlier identifier had used"); break; }
-						sid_entropy_at.push_back(at); cnt["sids_traced_to_entropy"]++; }
+					// unpredictable = made of what the entropy source supplied: the 16 bytes of a fresh identifier are a contiguous piece of what ONE open of /dev/urandom was
+					// served (however its reads were cut short or interrupted; an implementation may read ahead for several identifiers), and no two identifiers share a byte of it
+					if(is_new && !all_sids.count(n.sid)){ simk::TsanIgnore ign; std::string raw = unhex(n.sid); const std::vector<std::string> &opens = simk::entropy_by_open(); size_t at = std::string::npos, off = 0; bool shared = false;
+						for(size_t u=opens.size();u-->0 && at == std::string::npos;){ for(size_t f = opens[u].find(raw);f != std::string::npos;f = opens[u].find(raw,f+1)){ bool ov = false; for(auto &pr:sid_entropy_at) if(pr.first == u && f < pr.second + 16 && pr.second < f + 16) ov = true; if(ov){ shared = true; continue; } at = u; off = f; break; } }
+						if(at == std::string::npos){ res.fail("session-id-not-from-entropy-source",where + ": the fresh identifier " + n.sid + (shared ? " is made of entropy bytes that an earlier identifier had used" : " is not a run of 16 bytes that a read-out of /dev/urandom supplied") + " (" + std::to_string(opens.size()) + " read-outs so far)"); break; }
+						sid_entropy_at.push_back(std::make_pair(at,off)); cnt["sids_traced_to_entropy"]++; }
 					if(!live_sids.count(n.sid)){ res.fail("session-not-stored",where + ": the issued id is not in the storage"); break; } all_sids.insert(n.sid); cnt["server_side_saves"]++; }
 				else cnt["client_side_saves"]++;
 				if(!old_sid.empty() && old_sid != n.sid){ dead_sids.push_back(old_sid); if(live_sids.count(old_sid)){ res.fail(reset ? "old-id-usable-after-reset" : "old-id-left-in-storage",where + ": the previous identifier " + old_sid.substr(0,8) + ".. is still in the storage after the session " + (reset ? "was reset" : srv ? "got a new id" : "moved to the client")); break; } if(!srv) cnt["moved_server_to_client"]++; }
